@@ -140,7 +140,7 @@ def main(ctx, cases=None, transforms=None):
     quick = ctx.tier == "quick"
     b = build.build("plain")
     tr_ok, classes = pl.regen(ctx, b)
-    proofs_ok = ctx.lean_props("C08") if tr_ok else False
+    proofs_ok = ctx.lean_props("C08All", extra_modules=["Ecpint.Props.C08", "Ecpint.Props.C08b"]) if tr_ok else False
     drv = pl.pair_driver(b)
     if cases is None:
         cases = c01.gen_cases(rng, quick, 5)
